@@ -60,7 +60,7 @@ func (s *Storage) Create(rls *rspb.Release) error {
 	slog.Debug("creating release", "key", makeKey(rls.Name, rls.Version))
 	if s.MaxHistory > 0 {
 		// Want to make space for one more release.
-		if err := s.removeLeastRecent(rls.Name, s.MaxHistory-1); err != nil &&
+		if err := s.removeLeastRecent(rls.Name, s.MaxHistory-1, rls.Version); err != nil &&
 			!errors.Is(err, driver.ErrReleaseNotFound) {
 			return err
 		}
@@ -160,7 +160,12 @@ func (s *Storage) History(name string) ([]*rspb.Release, error) {
 //
 // We allow max to be set explicitly so that calling functions can "make space"
 // for the new records they are going to write.
-func (s *Storage) removeLeastRecent(name string, maximum int) error {
+//
+// Only revisions older than newVersion, the revision space is made for, are
+// removed: a record with that or a higher number was written by another
+// operation after the caller picked its number, and deleting it would let the
+// caller create the same revision a second time.
+func (s *Storage) removeLeastRecent(name string, maximum int, newVersion int) error {
 	if maximum < 0 {
 		return nil
 	}
@@ -185,6 +190,9 @@ func (s *Storage) removeLeastRecent(name string, maximum int) error {
 		// once we have enough releases to delete to reach the maximum, stop
 		if len(h)-len(toDelete) == maximum {
 			break
+		}
+		if rel.Version >= newVersion {
+			continue
 		}
 		if lastDeployed != nil {
 			if rel.Version != lastDeployed.Version {
